@@ -14,11 +14,14 @@ CLAIMS = {
             "bounded trees); every transition of the bounded state graph, random walks through that graph and random long "
             "histories are executed on the real library and TLC (spec/TraceCore.tla) evaluates the C01 predicates "
             "(each node once, parent/child agreement, owner, count = reachable, node_id lookups, removed nodes gone, "
-            "iteration) on every logged post-state.", "5 C01"),
+            "iteration) on every logged post-state. Calls through the handles of removed nodes (the specification's `stale` "
+            "action: any answer, tree unchanged) follow every removing transition and are interleaved in the histories; "
+            "the repository's own test-suite runs are validated as traces too.", "5 C01"),
     "C02": ("TLC checks IndexExact on every reachable spec state (index maintained procedurally by Register/Unregister/"
             "Rekey); after every executed step the harness logs find_all/find_first/in/get_clones/is_clone/count_unique "
             "for every data value and data_id present or absent, over six data flavours plus a non-injective id callback; "
-            "TLC validates them against the logged structure.", "5 C02"),
+            "TLC validates them against the logged structure, and the data_id rule itself: every id that is not an explicit "
+            "one is the default id (callback / hash) of the data the node holds now.", "5 C02"),
     "C03": ("TLC checks SiblingUnique on every reachable spec state and that every operation whose naive result would "
             "hold duplicate siblings is refused (Guard); every such (state, operation) pair in the bound is executed and "
             "must raise UniqueConstraintError and leave duplicates nowhere.", "5 C03"),
@@ -55,7 +58,9 @@ CLAIMS.update({
             "5 C09"),
     "C10": ("TLC checks mutual-consistency laws of the relationship operators on every ordered forest in the bound; for "
             "every shape (also with all data comparing equal, and labelled forests with clones) every node and ordered "
-            "pair is queried through all relationship methods and compared by TLC.", "5 C10"),
+            "pair is queried through all relationship methods and compared by TLC; the same battery runs on trees that "
+            "result from random mutation histories on one live object, on random larger trees with clones, and against "
+            "nodes of a second tree with the same node_ids (unrelated, no common ancestor).", "5 C10"),
     "C15": ("Every ordered forest x kind assignment in the bound (MC_Shapes with K=2) is built as a TypedTree; all "
             "kind-aware queries for every node, kind (present, absent, ANY_KIND) and any_kind flag are compared by TLC "
             "with 'filter the child/sibling list by kind'; TLC checks any_kind = untyped on the spec.", "5 C15"),
@@ -95,8 +100,9 @@ CLAIMS.update({
             "NoForeignRead, SnapshotCommitted, NestedSeesOwn, deadlock freedom, termination under weak fairness; a variant "
             "with an unlocked reader must be rejected (non-vacuity). Every complete schedule printed by TLC is forced on "
             "real threads for each snapshot operation (save to stream/path, copy, copy(predicate), filtered, copy_to, "
-            "to_dict_list, to_dotfile, with tree) by a cooperative scheduler around a delegating wrapper of the tree's "
-            "own lock; free-running multi-thread runs are recorded as well; TLC (spec/TraceLock.tla) validates every "
+            "to_dict_list, to_dotfile to stream and path, copy_to into the same tree, refused and failing operations, "
+            "with tree; Tree and TypedTree) by a cooperative scheduler; lock objects are traced from their creation "
+            "(one lock per tree is part of the validated protocol); free-running multi-thread runs are recorded as well; TLC (spec/TraceLock.tla) validates every "
             "event trace and the version each snapshot shows.", "5 C18"),
 })
 CLAIMS.update({
@@ -104,7 +110,7 @@ CLAIMS.update({
             "identical => no marks; dropping removed/moved-away gives T1's parent-child relation; dropping added/moved-here "
             "gives T0's child lists in order below nodes present in both; marks exactly on one-sided children; moved-here "
             "has a moved-away partner; order marks carry the true indexes; reduce keeps exactly marked nodes + ancestors; "
-            "inputs unmodified. All ordered pairs of labelled forests with clones in the bound (states enumerated by TLC) "
+            "inputs unmodified; the reduced result is the unreduced one restricted to marked nodes and ancestors. All ordered pairs of labelled forests with clones in the bound (states enumerated by TLC) "
             "and random larger pairs x ordered x reduce are diffed with the real code; TLC (TraceDiff) evaluates every "
             "law on each result.", "5 C11"),
     "C19": ("Scan(D, sort) is defined in spec/NutreeFs.tla; every directory shape in the bound (forests x file/dir "
